@@ -172,7 +172,31 @@ def show_struct(st):
 
 
 # --------------------------------------------------------------------------------------------
-# perm_ops / mesh_ops : one case = (object, operation)
+# object state: "used" objects have already taken part in searches before a symmetry is applied
+# --------------------------------------------------------------------------------------------
+# The library memoises search data on pattern objects (and may keep other state there).  A
+# symmetry must give the same image whether or not its argument was used before, and the image
+# must behave as that image.  Every object-level sub-check therefore runs in two states:
+#   fresh : the object comes straight from its constructor
+#   used  : the object has been the PATTERN of a completed search and the TEXT of a completed
+#           search (a Perm: in itself; a mesh pattern: pattern of a search in its own underlying
+#           Perm object, which thereby is pattern and text as well, and in a fresh equal text)
+
+def warm(obj):
+    lib = _lib()
+    if isinstance(obj, lib.Perm):
+        obj.count_occurrences_in(obj)          # obj as pattern and as text
+        obj.contains(obj)
+        lib.Perm(()).count_occurrences_in(obj)  # obj as text only
+    else:
+        obj.count_occurrences_in(obj.pattern)   # the mesh pattern and its underlying Perm object
+        obj.count_occurrences_in(lib.Perm(tuple(obj.pattern)))
+        obj.pattern.contains(obj)
+    return obj
+
+
+# --------------------------------------------------------------------------------------------
+# perm_ops / mesh_ops : one case = (object state, object, operation)
 # --------------------------------------------------------------------------------------------
 
 def _apply_perm(P, op):
@@ -201,6 +225,12 @@ def case_perm_op(part, case):
     lib = _lib()
     p = tuple(case["perm"])
     P = lib.Perm(p)
+    if case.get("used"):
+        try:
+            warm(P)
+        except Exception as exc:  # noqa
+            part.violation("perm_ops", case, {"exception while using the object in a search": repr(exc)})
+            return
     ops = [OPS_BY_LABEL["perm"][lab] for lab in case["ops"]]
     for op in ops[:-1]:
         _apply_perm(P, op)
@@ -216,8 +246,10 @@ def case_mesh_op(part, case):
     st = spec_struct(spec)
     try:
         M = build_mesh(spec)
+        if case.get("used"):
+            warm(M)
     except Exception as exc:  # noqa
-        part.violation("mesh_ops", case, {"constructor exception": repr(exc)})
+        part.violation("mesh_ops", case, {"constructor / first search exception": repr(exc)})
         return
     ops = [OPS_BY_LABEL["mesh"][lab] for lab in case["ops"]]
     for op in ops[:-1]:
@@ -265,6 +297,14 @@ def shard_perm_ops(shard):
         imgs = {s: R.apply_sym(s, p) for s in SYMS}
         _ops_on_object(part, "perm_ops", {"perm": p}, lib.Perm(p), imgs, ops, _apply_perm,
                        case_perm_op, p)
+        try:
+            U = warm(lib.Perm(p))
+        except Exception as exc:  # noqa
+            part.violation("perm_ops", {"perm": p, "used": True, "ops": [ops[0][0]]},
+                           {"exception while using the object in a search": repr(exc)})
+            continue
+        _ops_on_object(part, "perm_ops", {"perm": p, "used": True}, U, imgs, ops, _apply_perm,
+                       case_perm_op, p)
     return part
 
 
@@ -284,6 +324,14 @@ def shard_mesh_ops(shard):
             part.violation("mesh_ops", {"patt": spec, "ops": []}, {"constructor exception": repr(exc)})
             continue
         _ops_on_object(part, "mesh_ops", {"patt": spec}, M, imgs, ops, _apply_mesh, case_mesh_op, st)
+        try:
+            U = warm(build_mesh(spec))
+        except Exception as exc:  # noqa
+            part.violation("mesh_ops", {"patt": spec, "used": True, "ops": [ops[0][0]]},
+                           {"constructor / first search exception": repr(exc)})
+            continue
+        _ops_on_object(part, "mesh_ops", {"patt": spec, "used": True}, U, imgs, ops, _apply_mesh,
+                       case_mesh_op, st)
     return part
 
 
@@ -398,9 +446,14 @@ def _search(P, T):
     return bool(T.contains(P)), P.count_occurrences_in(T)
 
 
-def _images(obj, canon):
-    """The eight images of obj by the designated implementation operations; an exception is kept
-    in place of the image (the operation itself is judged by perm_ops / mesh_ops)."""
+def _images(obj, canon, used=False):
+    """The eight images of obj by the designated implementation operations (obj first `used`, see
+    warm()); an exception is kept in place of the image."""
+    if used:
+        try:
+            warm(obj)
+        except Exception as exc:  # noqa
+            return [exc] * 8
     out = []
     for s in SYMS:
         try:
@@ -410,34 +463,35 @@ def _images(obj, canon):
     return out
 
 
-def case_equiv(part, case):
-    """case = {"patt": p, "text": t, "sym": s}"""
+def _case_equiv_any(part, sub, case, build_patt, canon):
+    """case = {"patt": .., "text": t, "sym": s, "used": bool}: the unmoved pair of FRESH objects is
+    the yardstick; the images are taken from fresh or from used objects."""
     lib = _lib()
-    p, t, s = tuple(case["patt"]), tuple(case["text"]), case["sym"]
+    t, s, used = tuple(case["text"]), case["sym"], bool(case.get("used"))
     try:
-        P, T = lib.Perm(p), lib.Perm(t)
-        base = _search(P, T)
-        got = _search(call_seq(P, CANON_PERM[s]), call_seq(T, CANON_PERM[s]))
+        base = _search(build_patt(), lib.Perm(t))
+        P, T = build_patt(), lib.Perm(t)
+        if used:
+            warm(P)
+            warm(T)
+        got = _search(call_seq(P, canon[s]), call_seq(T, CANON_PERM[s]))
     except Exception as exc:  # noqa
-        part.violation("equiv", case, {"exception": repr(exc)})
+        part.violation(sub, case, {"exception": repr(exc)})
         return
     if got != base:
-        part.violation("equiv", case, {"(contains, count) before": base, "after": got})
+        part.violation(sub, case, {"(contains, count) unmoved, fresh objects": base,
+                                   "(contains, count) of the images": got})
+
+
+def case_equiv(part, case):
+    lib = _lib()
+    p = tuple(case["patt"])
+    _case_equiv_any(part, "equiv", case, lambda: lib.Perm(p), CANON_PERM)
 
 
 def case_mesh_equiv(part, case):
-    """case = {"patt": spec, "text": t, "sym": s}"""
-    lib = _lib()
-    spec, t, s = norm_spec(case["patt"]), tuple(case["text"]), case["sym"]
-    try:
-        M, T = build_mesh(spec), lib.Perm(t)
-        base = _search(M, T)
-        got = _search(call_seq(M, CANON_MESH[s]), call_seq(T, CANON_PERM[s]))
-    except Exception as exc:  # noqa
-        part.violation("mesh_equiv", case, {"exception": repr(exc)})
-        return
-    if got != base:
-        part.violation("mesh_equiv", case, {"(contains, count) before": base, "after": got})
+    spec = norm_spec(case["patt"])
+    _case_equiv_any(part, "mesh_equiv", case, lambda: build_mesh(spec), CANON_MESH)
 
 
 def _loop_failed(part, sub, case_fn, case, note):
@@ -449,28 +503,32 @@ def _loop_failed(part, sub, case_fn, case, note):
 
 
 CONTAINS_MAXN = 4
+EVALS_PER_PAIR = 15      # 7 moved images of fresh objects + 8 images (incl. unmoved) of used objects
 
 
-def _equiv_pair(part, sub, case_fn, pcase, t, imgs, timgs):
-    """One (pattern, text): the number of occurrences must be the same for the eight images, and
-    (texts up to length CONTAINS_MAXN) so must the answer of `contains`; a replayed single case
-    always compares both.  Returns the number of occurrences in the unmoved pair."""
+def _equiv_pair(part, sub, case_fn, pcase, t, imgs, timgs, uimgs, utimgs):
+    """One (pattern, text): the number of occurrences must be the same for the unmoved pair and
+    for the eight images, taken from fresh objects (imgs, timgs) and from used objects (uimgs,
+    utimgs); so must (texts up to length CONTAINS_MAXN) the answer of `contains`; a replayed
+    single case always compares both.  Returns the number of occurrences in the unmoved pair."""
     base = None
     both = len(t) <= CONTAINS_MAXN
-    for si in range(8):
-        P, T = imgs[si], timgs[si]
-        if isinstance(P, Exception) or isinstance(T, Exception):
-            _loop_failed(part, sub, case_fn, {"patt": pcase, "text": t, "sym": SYMS[si]}, "no image")
-            continue
-        try:
-            got = (bool(T.contains(P)) if both else None, P.count_occurrences_in(T))
-        except Exception as exc:  # noqa
-            _loop_failed(part, sub, case_fn, {"patt": pcase, "text": t, "sym": SYMS[si]}, exc)
-            continue
-        if si == 0:
-            base = got
-        elif base is not None and got != base:
-            _loop_failed(part, sub, case_fn, {"patt": pcase, "text": t, "sym": SYMS[si]}, [base, got])
+    for used, pi, ti in ((False, imgs, timgs), (True, uimgs, utimgs)):
+        for si in range(8):
+            P, T = pi[si], ti[si]
+            case = {"patt": pcase, "text": t, "sym": SYMS[si], "used": used}
+            if isinstance(P, Exception) or isinstance(T, Exception):
+                _loop_failed(part, sub, case_fn, case, "no image")
+                continue
+            try:
+                got = (bool(T.contains(P)) if both else None, P.count_occurrences_in(T))
+            except Exception as exc:  # noqa
+                _loop_failed(part, sub, case_fn, case, exc)
+                continue
+            if si == 0 and not used:
+                base = got
+            elif base is not None and got != base:
+                _loop_failed(part, sub, case_fn, case, [base, got])
     return None if base is None else base[1]
 
 
@@ -480,22 +538,26 @@ def shard_equiv(shard):
     part = Partial()
     patts = [p for k in range(0, min(maxk, n) + 1) for p in R.perms(k)]
     pimgs = [_images(lib.Perm(p), CANON_PERM) for p in patts]
+    upimgs = [_images(lib.Perm(p), CANON_PERM, used=True) for p in patts]
     for t in itertools.islice(itertools.permutations(range(n)), lo, hi):
         timgs = _images(lib.Perm(t), CANON_PERM)
-        for p, imgs in zip(patts, pimgs):
-            cnt = _equiv_pair(part, "equiv", case_equiv, p, t, imgs, timgs)
+        utimgs = _images(lib.Perm(t), CANON_PERM, used=True)
+        for p, imgs, uimgs in zip(patts, pimgs, upimgs):
+            cnt = _equiv_pair(part, "equiv", case_equiv, p, t, imgs, timgs, uimgs, utimgs)
             part.outcomes.add("classical pattern %s" % ("occurs" if cnt else "does not occur"))
-            part.add(7, 7 if (cnt is not None and 0 < cnt < math.comb(n, len(p))) else 0)
+            part.add(EVALS_PER_PAIR,
+                     EVALS_PER_PAIR if (cnt is not None and 0 < cnt < math.comb(n, len(p))) else 0)
     return part
 
 
-TEXTS = {}    # n -> list of (t, [8 images as Perm]) built before forking
+TEXTS = {}    # n -> list of (t, images of a fresh Perm, images of a used Perm), built before forking
 
 
 def _texts(n):
     lib = _lib()
     if n not in TEXTS:
-        TEXTS[n] = [(t, _images(lib.Perm(t), CANON_PERM)) for t in R.perms(n)]
+        TEXTS[n] = [(t, _images(lib.Perm(t), CANON_PERM), _images(lib.Perm(t), CANON_PERM, used=True))
+                    for t in R.perms(n)]
     return TEXTS[n]
 
 
@@ -506,24 +568,27 @@ def shard_mesh_equiv(shard):
     for spec in ALPHA[name][lo:hi]:
         try:
             M = build_mesh(spec)
+            U = build_mesh(spec)
             under = lib.Perm(spec[1])
         except Exception as exc:  # noqa
             part.violation("mesh_equiv", {"patt": spec, "text": (), "sym": "id"}, {"exception": repr(exc)})
             continue
         imgs = _images(M, CANON_MESH)
+        uimgs = _images(U, CANON_MESH, used=True)
         k = len(spec[1])
         for n in range(0, maxn + 1):
-            for t, timgs in _texts(n):
-                cnt = _equiv_pair(part, "mesh_equiv", case_mesh_equiv, spec, t, imgs, timgs)
+            for t, timgs, utimgs in _texts(n):
+                cnt = _equiv_pair(part, "mesh_equiv", case_mesh_equiv, spec, t, imgs, timgs,
+                                  uimgs, utimgs)
                 part.outcomes.add("mesh pattern %s" % ("occurs" if cnt else "does not occur"))
                 # non-trivial: the shading rejects some but not all classical occurrences
                 nt = 0
                 if cnt and n > k:
                     try:
-                        nt = 7 if cnt < under.count_occurrences_in(timgs[0]) else 0
+                        nt = EVALS_PER_PAIR if cnt < under.count_occurrences_in(timgs[0]) else 0
                     except Exception:  # noqa
                         nt = 0
-                part.add(7, nt)
+                part.add(EVALS_PER_PAIR, nt)
     return part
 
 
@@ -836,6 +901,9 @@ def run(ctx, only=None):
             total = math.factorial(ncore)
             shards += [(ncore, lo, min(total, lo + 5040), False) for lo in range(0, total, 5040)]
         ctx.pmap(shard_perm_ops, shards)
+        ctx.bounds["object states"] = ("perm_ops, mesh_ops (not the 2^16 family), equiv, mesh_equiv: every "
+                                       "object fresh from its constructor AND after it has been pattern "
+                                       "and text of completed searches (warm())")
         ctx.bounds["perm_ops"] = {"perms": "all of length 0..%d" % nfull,
                                   "ops": [o[0] for o in PERM_OPS],
                                   "extra": ("all of length %d with ops %s" % (ncore, [o[0] for o in PERM_OPS_CORE])) if ncore else None}
@@ -892,7 +960,8 @@ def run(ctx, only=None):
             per = 60 if n <= 6 else (90 if n == 7 else 630)
             shards += [(n, lo, min(total, lo + per), maxk) for lo in range(0, total, per)]
         ctx.pmap(shard_equiv, shards)
-        ctx.bounds["equiv"] = [{"text_len": n, "max_patt_len": min(n, k), "symmetries": 7} for n, k in plan]
+        ctx.bounds["equiv"] = [{"text_len": n, "max_patt_len": min(n, k), "symmetries": 7,
+                                "object states": ["fresh", "used"]} for n, k in plan]
         ctx.section("equiv", evaluations=ctx.evals - e0, violations=ctx.nviol - v0)
 
     if want("mesh_equiv"):
@@ -909,7 +978,8 @@ def run(ctx, only=None):
             shards += chunked(name, len(ALPHA[name]), per, maxn)
         ctx.pmap(shard_mesh_equiv, shards)
         ctx.bounds["mesh_equiv"] = [{"patterns": name, "count": len(ALPHA[name]),
-                                     "texts": "all of length 0..%d" % maxn, "symmetries": 7}
+                                     "texts": "all of length 0..%d" % maxn, "symmetries": 7,
+                                     "object states": ["fresh", "used"]}
                                     for name, maxn in plan]
         ctx.section("mesh_equiv", evaluations=ctx.evals - e0, violations=ctx.nviol - v0)
 
